@@ -4,6 +4,7 @@ import (
 	"bytes"
 	"encoding/json"
 	"fmt"
+	"math"
 	"time"
 
 	"git.sr.ht/~mariusor/go-xsd-duration"
@@ -85,6 +86,10 @@ func JSONWriteIntProp(b *[]byte, n string, d int64) (notEmpty bool) {
 }
 
 func JSONWriteFloatProp(b *[]byte, n string, f float64) (notEmpty bool) {
+	if math.IsNaN(f) || math.IsInf(f, 0) {
+		// JSON has no representation for these
+		return false
+	}
 	return JSONWriteProp(b, n, []byte(fmt.Sprintf("%f", f)))
 }
 
